@@ -67,11 +67,11 @@ PROPS = {
         dict(kind="core", profile="C08", mask="keys,queue,freq", preds="c08", quick=Q, thorough=T),
         dict(kind="macro", profile="C08", preds="score", mask="keys,queue,freq", quick=300, thorough=8000)]),
     "C09": dict(theorems=["Props/C09.v"], parts=[
-        dict(kind="macro", profile="C09", preds="err", mask="ret,keys,vals", quick=400, thorough=10000)]),
+        dict(kind="macro", profile="C09", preds="err,limit,mem", mask="ret,keys,vals", quick=400, thorough=10000)]),
     "C10": dict(theorems=["Props/C10.v"], parts=[
-        dict(kind="macro", profile="C10", preds="cif", mask="ret,keys,vals", quick=400, thorough=10000)]),
+        dict(kind="macro", profile="C10", preds="cif,limit,mem", mask="ret,keys,vals", quick=400, thorough=10000)]),
     "C11": dict(theorems=["Props/C11.v"], parts=[
-        dict(kind="macro", profile="C11", preds="inv", mask="ret,keys,vals,born", quick=400, thorough=10000)]),
+        dict(kind="macro", profile="C11", preds="inv,limit,mem,ttl", mask="ret,keys,vals,born", quick=400, thorough=10000)]),
     "C12": dict(theorems=["Props/C12.v"], parts=[
         dict(kind="macro", profile="C12", preds="tags,frame", mask="counts,keys,qset", quick=400, thorough=10000)]),
     "C13": dict(theorems=["Props/C13.v"], parts=[
@@ -645,13 +645,14 @@ def check_sched_case(lines, table):
     f = int(head[2][1:])
     info = table[f]
     problems, deadlock = [], False
-    a_op = []
+    a_op, b_op, c_op, rb_line, b_blocked = [], [], [], None, None
     expect = lambda fi, x: 2 * ((fi * 37 + x * 11) % 500 + 1)
     for l in lines[1:]:
         t = l.split()
         if not t:
             continue
         if t[0] == "SCHED":
+            b_blocked = "b_blocked=1" in l
             deadlock = "deadlock=1" in l
             if deadlock:
                 problems.append("DEADLOCK " + l[6:])
@@ -672,6 +673,8 @@ def check_sched_case(lines, table):
             if "exec=1" in l:
                 problems.append("MISS f%d: a lookup that overlapped another lookup of the same stored key ran the body again (%s)" % (f, l))
         elif t[0] in ("RA", "RB", "Q", "P"):
+            if t[0] == "RB":
+                rb_line = l
             m = re.search(r"call (\d+) (\d+) .*exec=\d+ enc=(\d+)", l) if t[0] in ("Q", "P") else None
             if m and table[int(m.group(1))]["ret"] == 0 and int(m.group(3)) != expect(int(m.group(1)), int(m.group(2))):
                 problems.append("VALUE call f%s x=%s returned enc %s, the function's value is %d"
@@ -680,6 +683,18 @@ def check_sched_case(lines, table):
                 problems.append("PANIC " + l)
         elif t[0] == "AOP":
             a_op = t[1:]
+        elif t[0] == "BOP":
+            b_op = t[1:]
+        elif t[0] == "COP":
+            c_op = t[1:]
+        elif t[0] == "RC":
+            # C started after B had returned; B's call stored the result (or found it stored): C must be served
+            if "panic=" in l:
+                problems.append("PANIC " + l)
+            same = a_op[:3] == b_op[:3] == c_op[:3] and a_op[:1] == ["call"]
+            if same and b_blocked is False and rb_line and "exec=" in rb_line and "exec=1" in l:
+                problems.append("MISS f%d: the body ran again in a call that started after a call that stored the result had returned "
+                                "(A parked inside its own store; %s)" % (f, l))
         elif t[0] == "WM":
             # thread A is parked between two of its critical sections (holding nothing), B has finished:
             # async: queue and store hold the same keys (C18_async_consistent_always); sync: every stored
@@ -794,7 +809,9 @@ def part_sched(run, part):
         elif want == "stats":
             mine = [p for p in problems if p.startswith("STATS")]
         else:
-            mine = [p for p in problems if not p.startswith("DEADLOCK")]
+            # consistency (C18): values, tracking, limits, panics, calls that never return; needless
+            # re-executions (MISS) and statistics belong to C03/C14 and C15
+            mine = [p for p in problems if not p.startswith(("DEADLOCK", "MISS", "STATS"))]
         if dl:
             n_dead += 1
         if mine:
